@@ -231,5 +231,24 @@ pub open spec fn decoded(st: StructureTag, r: LdapResultExt) -> bool {
             && r.1.name is None && r.1.val is None && r.2.0 is None), //# C11.malformed_ldap_result_becomes_protocol_error_not_a_panic
 //@end
 
+// `impl From<Tag> for LdapResult` is what every single-result operation applies to the driver's answer (ldap.rs: `.0.into()` /
+// `LdapResult::from`); it is the projection of the conversion above on the common fields
+//@lift name=LdapResult::from file=src/result.rs impl="impl\s+From<Tag>\s+for\s+LdapResult\s*\{" fn=from
+//@ sub "fn from(t: Tag) -> LdapResult" => "fn ldap_result_from(t: Tag) -> LdapResult"
+//@ sub "<LdapResultExt as From<Tag>>::from(" => "ext_from("
+//@ ret r
+//@ spec
+    requires (t is StructureTag) || (t is Null),
+    ensures
+        t is Null ==> r.rc == 0 && r.matched@ == ""@ && r.text@ == ""@ && r.refs@.len() == 0 && r.ctrls@.len() == 0, //# C03.plain_result_of_null_tag_is_empty_success
+        t matches Tag::StructureTag(st) ==> (wf_ldap_result(st) ==> (st.payload matches PL::C(ch)
+            && r.rc == (be_uint(ch@[0].payload->P_0@) as u32)
+            && r.matched@ == utf8_decode(ch@[1].payload->P_0@)
+            && r.text@ == utf8_decode(ch@[2].payload->P_0@)
+            && strs(r.refs@) == refs_fold(ch@, ch@.len() as int)
+            && r.ctrls@.len() == 0)), //# C03.plain_result_fields_equal_what_the_server_sent
+        t matches Tag::StructureTag(st) ==> (!wf_ldap_result(st) ==> r.rc == 2 && r.refs@.len() == 0 && r.ctrls@.len() == 0), //# C11.plain_result_of_malformed_ldap_result_is_protocol_error
+//@end
+
 } // verus!
 fn main() {}
